@@ -3,3 +3,4 @@ import OvniModel.Version
 import OvniModel.Lemmas.Version
 import OvniModel.Props.C14
 import OvniModel.Emu.System
+import OvniModel.Props.C15
